@@ -124,15 +124,32 @@ pub fn run(args: &[String]) -> String {
         "pairing" => {
             let set: u8 = args[1].parse().unwrap();
             let sc = if set == 1 { "pairing1" } else { "pairing2" };
-            for prefix in [0u8, 0xE0, 0xE1] {
-                for code in 0u32..256 {
-                    let c = code as u8;
-                    if !guarded(move || scenario_pairing(set, prefix, c, false)) {
-                        return hit(sc, &[prefix as u64, code as u64]);
+            for hist in 0u32..256 {
+                for prefix in [0u8, 0xE0, 0xE1] {
+                    for code in 0u32..256 {
+                        let (h, c) = (hist as u8, code as u8);
+                        if !guarded(move || scenario_pairing_after(set, h, prefix, c, false)) {
+                            return hit(sc, &[hist as u64, prefix as u64, code as u64]);
+                        }
                     }
                 }
             }
-            "HOLDS bound: 3 prefixes x 256 codes (complete)".into()
+            // injectivity after every one-byte history
+            let isc = if set == 1 { "injective1" } else { "injective2" };
+            for hist in 0u32..256 {
+                let mut seen: Vec<(KeyCode, u8, u8)> = Vec::new();
+                for prefix in [0u8, 0xE0, 0xE1] {
+                    for code in 0u32..256 {
+                        if let Some(k) = std::panic::catch_unwind(move || x_press_after(set, hist as u8, prefix, code as u8)).unwrap_or(None) {
+                            if let Some((_, p0, c0)) = seen.iter().find(|(k0, _, _)| *k0 == k) {
+                                return hit(isc, &[hist as u64, *p0 as u64, *c0 as u64, prefix as u64, code as u64]);
+                            }
+                            seen.push((k, prefix, code as u8));
+                        }
+                    }
+                }
+            }
+            "HOLDS bound: 256 one-byte histories x 3 prefixes x 256 codes: make/break pairing and injectivity".into()
         }
         // Keyboard vs three separate stages: structured sample of frame / prefix states x every operation argument
         "keyboard" => {
